@@ -3,6 +3,7 @@ C05 — every touch starts afresh, whatever happened before.
 -/
 import Wheatley.Lemmas.Gen
 import Wheatley.Lemmas.Ctl
+import Wheatley.Lemmas.FreshTouch
 namespace Wheatley.C05
 
 /-- `reset()` yields the freshly constructed generator, from **every** state (reachable or not):
@@ -52,5 +53,42 @@ example : ∃ g, mkGrandsire 7 none = some g ∧
     evRows ((g.runOps ops₁).1.reset.runOps [.next true]).2 = [[2, 1, 3, 5, 4, 7, 6]] := by
   refine ⟨(mkGrandsire 7 none).get (by decide), by simp, ?_⟩
   decide
+
+/-! ### The whole system -/
+section System
+open FreshTouch MethodRows
+variable {K : Type} [Num K]
+
+/-- A Bot that is not ringing satisfies the invariant whatever its generator holds - a pending Bob, half of a
+multi-change Single, any position, any row, even a state no run could produce. -/
+theorem idle_is_fresh (b : Bot) (h : b.isRinging = false) : Fresh b := by
+  intro hm; rw [hm.1] at h; cases h
+
+/-- **Every touch starts afresh - in every run.**  Start from any world whose Bot is not ringing, its generator in
+*any* state.  Then in every state of every run - any events at any times: Look To, Go, Bobs and Singles before,
+during and after the rounds, That's all, Rounds, Stand, Stop Touch, selections, settings, size changes, as many
+touches as you like - whenever the method is being rung the generator is in a state that a freshly constructed
+generator reaches by the row requests, Bobs and Singles made of it alone.  Nothing of what was rung, called or left
+half-finished before the method started is in it. -/
+theorem every_touch_starts_afresh (wt : K → K) (endTime : K) (fuel : Nat) (w : World K) (events : List (K × Ev))
+    (h : Fresh w.bot) : Fresh (World.run wt endTime fuel w events).1.bot :=
+  FreshTouch.botInvariant.run wt endTime fuel w events (fun _ _ => trivial) h
+
+theorem method_generator_is_a_fresh_one (wt : K → K) (endTime : K) (fuel : Nat) (w : World K)
+    (events : List (K × Ev)) (hidle : w.bot.isRinging = false)
+    (hm : InMethod (World.run wt endTime fuel w events).1.bot) :
+    ∃ k cs sr ops, (∀ op ∈ ops, op ≠ GenOp.reset) ∧
+      (World.run wt endTime fuel w events).1.bot.gen = applyAll (Gen.init k cs sr) ops :=
+  (every_touch_starts_afresh wt endTime fuel w events (idle_is_fresh w.bot hidle) hm).ops
+
+/-- Non-vacuity: a Bot in the method whose generator has just been reset and asked for one row is `Fresh`, and in
+the method. -/
+example : ∃ b : Bot, InMethod b ∧ Fresh b := by
+  refine ⟨{ Bot.init (Gen.init (.plainHunt 4) none [1, 2, 3, 4]) false false true none none with
+              isRinging := true, ringingOpening := false, ringingRounds := false }, ⟨rfl, rfl, rfl⟩, ?_⟩
+  intro _
+  exact Reach.init _ _ _
+
+end System
 
 end Wheatley.C05
